@@ -11,6 +11,7 @@ import PyecoreModel.Driver.OpsProto
 import PyecoreModel.Driver.StaticProto
 import PyecoreModel.Driver.XDocProto
 import PyecoreModel.Driver.JDocProto
+import PyecoreModel.Driver.NTreeProto
 /-!
 Line-protocol driver over the executable model (`Model/*`, no Mathlib ⇒ links natively).
 `driver <protocol>` reads one operation per line on stdin and prints one record per line.
@@ -41,4 +42,5 @@ def main (args : List String) : IO UInt32 := do
   | ["dflt"] => loop stdin Dflt.Proto.step Dflt.Proto.init; return 0
   | ["slot"] => loop stdin Py.SlotProto.step Py.SlotProto.init; return 0
   | ["store"] => loop stdin Store.Proto.step Store.Proto.init; return 0
+  | ["ntree"] => loop stdin NamedTree.Proto.step (.node "" []); return 0
   | _ => IO.eprintln "usage: driver <oset|store>"; return 2
